@@ -28,6 +28,9 @@ pub struct Flags {
     pub liveness_probe: bool,
     /// a client never connects while its previous connection is still registered
     pub no_takeover: bool,
+    /// a repeated subscription with another QoS must deliver with the newly granted QoS
+    /// (probe of known finding R7; otherwise the QoS of such a subscription is not asserted)
+    pub strict_resub: bool,
     /// slots whose connections are asserted on; None = all
     pub witnesses: Option<Vec<usize>>,
     /// known-finding regions the interpreter keeps out of (main campaigns)
@@ -49,6 +52,8 @@ pub struct Avoid {
     /// R10: completeness of a group is not demanded between a member's leaving and the next
     /// matching publish
     pub group_stall: bool,
+    /// R5: no Disconnect signal is sent for a connection whose end is already under way
+    pub recycled_id: bool,
 }
 
 /// Client-side bookkeeping of one connection
